@@ -157,6 +157,11 @@ func (w *World) Many(batch []*Rec, foreignAt int, api string) (n int, err error,
 				w.fail("uuid-malformed", api, "-", fmt.Sprintf("member %d has no uuid after a successful batch", i))
 			}
 		}
+		for i, x := range batch {
+			if w.transformsForeign(x, wants[i], "nil") {
+				return n, err, false
+			}
+		}
 		w.accepts++
 		w.applyBatch(batch, wants)
 		return n, err, true
